@@ -3,12 +3,35 @@
  * descriptors are real pipes and regular files created under build/work/c07; in mode 'w'
  * the read() calls the library makes on that descriptor are answered according to the
  * case's schedule (link-time --wrap=read; fopencookie for FILE streams), the bytes still
- * travelling through the pipe/file; in mode 'n' nothing is interposed. */
+ * travelling through the pipe/file; in mode 'n' nothing is interposed.
+ *
+ * Case "big <what> <obj> <arg>": lengths of 2^31-1 and more, which the list-of-cells model cannot be run on.
+ * The objects (syntax and ideal order: harness/bigmap.h) are mbuffs made with spif_mbuff_init() whose buff / len /
+ * size members are then pointed at a sparse all-zero mapping ("z<len>", "p<len>@<off>" = one byte 0x01 at <off>):
+ *     big cmp <A> <B>       cmp, ncmp (count = common length, common length + 1, -1), cmp_with_ptr and
+ *                           ncmp_with_ptr (count = common length), both ways round, and cmp(A, A), cmp(B, B)
+ *     big idx <A> <byte>    index and rindex of the byte (decimal)
+ *     big find <A> <hex>    find and find_from_ptr of a short needle
+ *     big sub <A> <idx>:<cnt>   subbuff and subbuff_to_ptr (positions beyond 2^31, negative positions counted
+ *                           from a length beyond 2^31; the piece itself is short)
+ *     big rev <A> -         reverse in place (this one WRITES every page: the mapping is committed, <len> bytes of
+ *                           memory for the duration of the case); afterwards the one 0x01 must sit at len-1-off
+ *     big hist <A> <op,op,...>   a HISTORY on a real object: spif_mbuff_new_from_ptr copies A into the heap (len bytes
+ *                           of memory, up to three times that while a splice or realloc is under way), then
+ *                             app:<hex> apo:<hex>  append_from_ptr / append(other)      pre:<hex> ppo:<hex>  prepend...
+ *                             spl:<idx>:<cnt>:<hex> splp:<idx>:<cnt>:<hex>  splice(other) / splice_from_ptr
+ *                             sub:<idx>:<cnt>  rev  dup  clr:<byte>  trim
+ *                           The ideal sequence is kept as (length, fill byte, a few marked positions); after every step
+ *                           length, size >= length, allocation >= size, every marked byte and - by one memcmp of each
+ *                           run between marks against itself shifted by one - every other byte are checked.
+ * Every answer is compared with the ideal sequence's, which follows from (kind, length, offset) alone.
+ * Output "BIG:ok", or "BIG:differs <call>=<answer> expected <ideal> ...". */
 #define _GNU_SOURCE
 #include "common.h"
 #include <errno.h>
 #include <fcntl.h>
 #include <sys/stat.h>
+#include "bigmap.h"
 extern size_t __sanitizer_get_allocated_size(const volatile void *p);   /* ASan runtime */
 
 /* ---- schedule ---- */
@@ -289,6 +312,322 @@ static void do_op(spif_mbuff_t *pm, char *tok)
     else { printf("HARNESS-ERROR:bad-op"); lv_glue_error = 1; }
 }
 
+/* ---- buffers of 2 GiB and more ---- */
+static int lv_bigbad;
+static void big_expect(const char *call, const char *a, const char *b, long long cnt, long long got, long long want, int ascmp)
+{
+    if (ascmp ? (lv_big_sign(got) == lv_big_sign(want) && got >= -1 && got <= 1) : (got == want)) return;
+    printf("%s %s(%s,%s", lv_bigbad ? "" : "BIG:differs", call, a, b);
+    if (cnt != -2) printf(",%lld", cnt);
+    if (ascmp) printf(")=%s(%lld) expected %s", lv_big_cmpname(got), got, lv_big_cmpname(want));
+    else printf(")=%lld expected %lld", got, want);
+    lv_bigbad = 1;
+}
+static spif_mbuff_t big_mbuff(lv_big_t *o)
+{
+    spif_mbuff_t m = (spif_mbuff_t) malloc(sizeof(*m));
+    spif_mbuff_init(m);
+    m->buff = (spif_byteptr_t) o->base;
+    m->len = (spif_memidx_t) o->len;
+    m->size = (spif_memidx_t) o->len;
+    return m;
+}
+static void big_release(spif_mbuff_t m, lv_big_t *o)
+{
+    m->buff = (spif_byteptr_t) NULL; m->len = 0; m->size = 0;      /* the mapping is not the object's to free */
+    spif_mbuff_del(m);
+    lv_big_unmap(o);
+}
+static long long big_byte_at(const lv_big_t *o, long long i) { return (lv_big_haspoke(o, o->len) && o->off == i) ? o->poke : o->fill; }
+/* the ideal find: candidate starts are the first few positions and the ones whose window holds the poke */
+static long long big_ideal_find(const lv_big_t *o, const unsigned char *nd, long long k)
+{
+    long long cand[64], best = o->len, i, j;
+    int nc = 0;
+    for (i = 0; i <= k + 1 && nc < 30; i++) cand[nc++] = i;
+    if (lv_big_haspoke(o, o->len)) for (i = o->off - k; i <= o->off + 1 && nc < 62; i++) cand[nc++] = i;
+    for (j = 0; j < nc; j++) {
+        long long s0 = cand[j];
+        if (s0 < 0 || s0 + k > o->len || s0 >= best) continue;
+        for (i = 0; i < k; i++) if (big_byte_at(o, s0 + i) != nd[i]) break;
+        if (i == k) best = s0;
+    }
+    return best;
+}
+
+/* ---- a history on a real object of 2 GiB and more: the ideal sequence as (len, fill, marks) ---- */
+#define BIG_MAXMARK 96
+typedef struct { long long len; int fill; int n; long long pos[BIG_MAXMARK]; unsigned char val[BIG_MAXMARK]; } big_ideal_t;
+static void ideal_sort(big_ideal_t *s)
+{
+    int i, j;
+    for (i = 1; i < s->n; i++) for (j = i; j > 0 && s->pos[j - 1] > s->pos[j]; j--) {
+        long long p = s->pos[j]; unsigned char v = s->val[j];
+        s->pos[j] = s->pos[j - 1]; s->val[j] = s->val[j - 1]; s->pos[j - 1] = p; s->val[j - 1] = v;
+    }
+}
+static int ideal_add(big_ideal_t *s, long long pos, unsigned char v)
+{
+    if (s->n >= BIG_MAXMARK) return 0;
+    s->pos[s->n] = pos; s->val[s->n] = v; s->n++;
+    return 1;
+}
+static int ideal_at(const big_ideal_t *s, long long i)
+{
+    int k;
+    for (k = 0; k < s->n; k++) if (s->pos[k] == i) return s->val[k];
+    return s->fill;
+}
+/* remove [idx, idx+cnt), insert k bytes there */
+static int ideal_splice(big_ideal_t *s, long long idx, long long cnt, const unsigned char *b, long long k)
+{
+    int i, m = 0;
+    for (i = 0; i < s->n; i++) {
+        if (s->pos[i] < idx) { s->pos[m] = s->pos[i]; s->val[m] = s->val[i]; m++; }
+        else if (s->pos[i] >= idx + cnt) { s->pos[m] = s->pos[i] - cnt + k; s->val[m] = s->val[i]; m++; }
+    }
+    s->n = m;
+    for (i = 0; i < k; i++) if (!ideal_add(s, idx + i, b[i])) return 0;
+    s->len += k - cnt;
+    ideal_sort(s);
+    return 1;
+}
+static int big_run_is(const unsigned char *b, long long from, long long to, int fill)
+{
+    if (to <= from) return 1;
+    if (b[from] != fill) return 0;
+    return to - from == 1 || memcmp(b + from, b + from + 1, (size_t) (to - from - 1)) == 0;
+}
+/* compare an object with the ideal; reports the first difference */
+static void big_verify(const char *step, spif_mbuff_t m, big_ideal_t *s)
+{
+    long long prev = 0;
+    int k;
+    const unsigned char *b = (const unsigned char *) SPIF_MBUFF_BUFF(m);
+    big_expect("len-after", step, "", -2, (long long) spif_mbuff_get_len(m), s->len, 0);
+    if ((long long) spif_mbuff_get_len(m) != s->len) return;
+    big_expect("size>=len-after", step, "", -2, m->size >= m->len, 1, 0);
+    if (b) big_expect("allocation>=size-after", step, "", -2, (long long) __sanitizer_get_allocated_size(b) >= (long long) m->size, 1, 0);
+    else { big_expect("buffer-present-after", step, "", -2, s->len == 0, 1, 0); return; }
+    ideal_sort(s);
+    for (k = 0; k <= s->n; k++) {
+        long long stop = (k < s->n) ? s->pos[k] : s->len;
+        if (!big_run_is(b, prev, stop, s->fill)) { big_expect("bytes-between-marks-after", step, "", prev, 0, 1, 0); return; }
+        if (k < s->n) {
+            if (b[stop] != s->val[k]) { big_expect("marked-byte-after", step, "", stop, b[stop], s->val[k], 0); return; }
+            prev = stop + 1;
+        }
+    }
+}
+static int is_c_space(int c) { return c == ' ' || (c >= 9 && c <= 13); }
+static void run_big_hist(lv_big_t *A, char *prog)
+{
+    static char *ops[64];
+    big_ideal_t S;
+    spif_mbuff_t m;
+    int nops, i;
+    if (!lv_big_map(A, 0, 1, 0)) { printf("HARNESS-ERROR:big-map"); return; }
+    memset(&S, 0, sizeof(S));
+    S.len = A->len; S.fill = 0;
+    if (lv_big_haspoke(A, A->len)) ideal_add(&S, A->off, A->poke);
+    m = spif_mbuff_new_from_ptr((spif_byteptr_t) A->base, (spif_memidx_t) A->len);
+    lv_big_unmap(A);
+    if (SPIF_MBUFF_ISNULL(m)) { printf("BIG:differs new_from_ptr returned NULL"); return; }
+    big_verify("new_from_ptr", m, &S);
+    nops = split_on(prog, ',', ops, 64);
+    for (i = 0; i < nops && !lv_bigbad; i++) {
+        char step[80], *f[5];
+        int nf;
+        size_t k = 0;
+        unsigned char *b = NULL;
+        long long idx, cnt;
+        snprintf(step, sizeof(step), "%d:%s", i, ops[i]);
+        nf = split_on(ops[i], ':', f, 5);
+        if ((!strcmp(f[0], "app") || !strcmp(f[0], "apo") || !strcmp(f[0], "pre") || !strcmp(f[0], "ppo")) && nf == 2) {
+            spif_bool_t r;
+            spif_mbuff_t o;
+            b = lv_unhex(f[1], &k);
+            o = spif_mbuff_new_from_ptr((spif_byteptr_t) b, (spif_memidx_t) k);
+            if (!strcmp(f[0], "app")) r = spif_mbuff_append_from_ptr(m, (spif_byteptr_t) b, (spif_memidx_t) k);
+            else if (!strcmp(f[0], "apo")) r = spif_mbuff_append(m, o);
+            else if (!strcmp(f[0], "pre")) r = spif_mbuff_prepend_from_ptr(m, (spif_byteptr_t) b, (spif_memidx_t) k);
+            else r = spif_mbuff_prepend(m, o);
+            big_expect("ret", step, "", -2, r ? 1 : 0, 1, 0);
+            if (!ideal_splice(&S, (f[0][0] == 'a') ? S.len : 0, 0, b, (long long) k)) { printf("HARNESS-ERROR:marks"); return; }
+            spif_mbuff_del(o);
+        } else if ((!strcmp(f[0], "spl") || !strcmp(f[0], "splp")) && nf == 4) {
+            spif_bool_t r;
+            spif_mbuff_t o;
+            long long ni, nc;
+            int ok = 1;
+            idx = atoll(f[1]); cnt = atoll(f[2]);
+            b = lv_unhex(f[3], &k);
+            o = spif_mbuff_new_from_ptr((spif_byteptr_t) b, (spif_memidx_t) k);
+            ni = (idx < 0) ? S.len + idx : idx;
+            if (ni < 0 || ni >= S.len) ok = 0;
+            nc = (cnt < 0) ? ni + S.len + cnt : cnt;
+            if (nc < 0 || nc > S.len - ni) ok = 0;
+            if (!strcmp(f[0], "spl")) r = spif_mbuff_splice(m, (spif_memidx_t) idx, (spif_memidx_t) cnt, o);
+            else r = spif_mbuff_splice_from_ptr(m, (spif_memidx_t) idx, (spif_memidx_t) cnt, (spif_byteptr_t) b, (spif_memidx_t) k);
+            big_expect("ret", step, "", -2, r ? 1 : 0, ok, 0);
+            if (ok && !ideal_splice(&S, ni, nc, b, (long long) k)) { printf("HARNESS-ERROR:marks"); return; }
+            spif_mbuff_del(o);
+        } else if (!strcmp(f[0], "sub") && nf == 3) {
+            long long ni, nc, j, refused = 0;
+            spif_mbuff_t sb;
+            idx = atoll(f[1]); cnt = atoll(f[2]);
+            ni = (idx < 0) ? S.len + idx : idx;
+            if (ni < 0 || ni >= S.len) refused = 1;
+            nc = (cnt <= 0) ? S.len - ni + cnt : cnt;
+            if (nc < 0) refused = 1;
+            if (nc > S.len - ni) nc = S.len - ni;
+            if (!refused && nc > 65536) { printf("HARNESS-ERROR:big-sub-piece-too-long"); return; }
+            sb = spif_mbuff_subbuff(m, (spif_memidx_t) idx, (spif_memidx_t) cnt);
+            big_expect("subbuff:isnull", step, "", -2, SPIF_MBUFF_ISNULL(sb) ? 1 : 0, refused, 0);
+            if (!refused && !SPIF_MBUFF_ISNULL(sb)) {
+                big_expect("subbuff:len", step, "", -2, (long long) spif_mbuff_get_len(sb), nc, 0);
+                for (j = 0; j < nc && j < (long long) spif_mbuff_get_len(sb); j++)
+                    if (SPIF_MBUFF_BUFF(sb)[j] != ideal_at(&S, ni + j)) { big_expect("subbuff:byte", step, "", j, SPIF_MBUFF_BUFF(sb)[j], ideal_at(&S, ni + j), 0); break; }
+            }
+            if (!SPIF_MBUFF_ISNULL(sb)) spif_mbuff_del(sb);
+        } else if (!strcmp(f[0], "rev") && nf == 1) {
+            int q;
+            spif_bool_t r = spif_mbuff_reverse(m);
+            big_expect("ret", step, "", -2, r ? 1 : 0, 1, 0);
+            for (q = 0; q < S.n; q++) S.pos[q] = S.len - 1 - S.pos[q];
+            ideal_sort(&S);
+        } else if (!strcmp(f[0], "clr") && nf == 2) {
+            spif_bool_t r = spif_mbuff_clear(m, (spif_uint8_t) atoi(f[1]));
+            big_expect("ret", step, "", -2, r ? 1 : 0, 1, 0);
+            S.fill = atoi(f[1]) & 255; S.n = 0;
+        } else if (!strcmp(f[0], "trim") && nf == 1) {
+            long long a = 0, z = S.len;       /* the ideal keeps [a, z) */
+            int q, m2 = 0;
+            spif_bool_t r = spif_mbuff_trim(m);
+            big_expect("ret", step, "", -2, r ? 1 : 0, 1, 0);
+            ideal_sort(&S);
+            if (is_c_space(S.fill)) {
+                /* everything outside the first and the last mark that is not white space goes */
+                a = S.len; z = S.len;
+                for (q = 0; q < S.n; q++) if (!is_c_space(S.val[q])) { a = S.pos[q]; break; }
+                for (q = S.n - 1; q >= 0; q--) if (!is_c_space(S.val[q])) { z = S.pos[q] + 1; break; }
+                if (a == S.len) z = a;
+            } else {
+                while (a < z && is_c_space(ideal_at(&S, a))) a++;
+                while (z > a && is_c_space(ideal_at(&S, z - 1))) z--;
+            }
+            for (q = 0; q < S.n; q++) if (S.pos[q] >= a && S.pos[q] < z) { S.pos[m2] = S.pos[q] - a; S.val[m2] = S.val[q]; m2++; }
+            S.n = m2; S.len = z - a;
+        } else if (!strcmp(f[0], "dup") && nf == 1) {
+            spif_mbuff_t d = spif_mbuff_dup(m);
+            big_expect("dup:isnull", step, "", -2, SPIF_MBUFF_ISNULL(d) ? 1 : 0, 0, 0);
+            if (!SPIF_MBUFF_ISNULL(d)) {
+                big_expect("dup:own-storage", step, "", -2, SPIF_MBUFF_BUFF(d) != SPIF_MBUFF_BUFF(m) || S.len == 0, 1, 0);
+                big_verify(step, d, &S);
+                big_expect("cmp(original,copy)", step, "", -2, spif_mbuff_cmp(m, d), 0, 1);
+                spif_mbuff_del(d);
+            }
+        } else { printf("HARNESS-ERROR:bad-big-op:%s", ops[i]); return; }
+        if (b) free(b);
+        if (!lv_bigbad) big_verify(step, m, &S);
+    }
+    spif_mbuff_del(m);
+    if (!lv_bigbad) printf("BIG:ok");
+}
+static void run_big(int n, char **t)
+{
+    lv_big_t A, B;
+    spif_mbuff_t a, b;
+    lv_bigbad = 0;
+    if (n != 4 || !lv_big_parse(t[2], &A)) { printf("HARNESS-ERROR:bad-big-case"); return; }
+    if (!strcmp(t[1], "hist")) { run_big_hist(&A, t[3]); return; }
+    if (!lv_big_map(&A, 0, 1, 0)) { printf("HARNESS-ERROR:big-map"); return; }
+    if (strcmp(t[1], "rev")) lv_big_readonly(&A);
+    a = big_mbuff(&A);
+    if (!strcmp(t[1], "cmp")) {
+        long long m;
+        if (!lv_big_parse(t[3], &B) || !lv_big_map(&B, 0, 1, 0)) { printf("HARNESS-ERROR:bad-big-case"); return; }
+        lv_big_readonly(&B);
+        b = big_mbuff(&B);
+        m = (A.len < B.len) ? A.len : B.len;
+        big_expect("cmp", t[2], t[3], -2, spif_mbuff_cmp(a, b), lv_big_order(&A, &B), 1);
+        big_expect("cmp", t[3], t[2], -2, spif_mbuff_cmp(b, a), lv_big_order(&B, &A), 1);
+        big_expect("cmp", t[2], t[2], -2, spif_mbuff_cmp(a, a), 0, 1);
+        big_expect("cmp", t[3], t[3], -2, spif_mbuff_cmp(b, b), 0, 1);
+        big_expect("ncmp", t[2], t[3], m, spif_mbuff_ncmp(a, b, m), lv_big_memcmp(&A, &B, m), 1);
+        big_expect("ncmp", t[3], t[2], m, spif_mbuff_ncmp(b, a, m), lv_big_memcmp(&B, &A, m), 1);
+        /* a count beyond either length, or a negative one, compares everything */
+        big_expect("ncmp", t[2], t[3], m + 1, spif_mbuff_ncmp(a, b, m + 1), (A.len == B.len) ? lv_big_memcmp(&A, &B, m) : lv_big_order(&A, &B), 1);
+        big_expect("ncmp", t[3], t[2], -1, spif_mbuff_ncmp(b, a, -1), lv_big_order(&B, &A), 1);
+        big_expect("cmp_with_ptr", t[2], t[3], m, spif_mbuff_cmp_with_ptr(a, b->buff, m), lv_big_memcmp(&A, &B, m), 1);
+        big_expect("ncmp_with_ptr", t[3], t[2], m, spif_mbuff_ncmp_with_ptr(b, a->buff, m), lv_big_memcmp(&B, &A, m), 1);
+        big_release(b, &B);
+    } else if (!strcmp(t[1], "idx")) {
+        long long c = atoll(t[3]), first = A.len, last = A.len, poke = lv_big_haspoke(&A, A.len) ? A.off : -1;
+        if (c == A.fill && A.len > 0) {
+            first = (poke == 0) ? ((A.len > 1) ? 1 : A.len) : 0;
+            last = (poke == A.len - 1) ? ((A.len > 1) ? A.len - 2 : A.len) : A.len - 1;
+        } else if (c == A.poke && poke >= 0) first = last = poke;
+        big_expect("index", t[2], t[3], -2, spif_mbuff_index(a, (spif_uint8_t) c), first, 0);
+        big_expect("rindex", t[2], t[3], -2, spif_mbuff_rindex(a, (spif_uint8_t) c), last, 0);
+    } else if (!strcmp(t[1], "find")) {
+        size_t k;
+        unsigned char *nd = lv_unhex(t[3], &k);
+        long long want = big_ideal_find(&A, nd, (long long) k);
+        spif_mbuff_t o = spif_mbuff_new_from_ptr((spif_byteptr_t) nd, (spif_memidx_t) k);
+        if (!k || k > 24) { printf("HARNESS-ERROR:bad-big-case"); return; }
+        big_expect("find", t[2], t[3], -2, spif_mbuff_find(a, o), want, 0);
+        big_expect("find_from_ptr", t[2], t[3], -2, spif_mbuff_find_from_ptr(a, (spif_byteptr_t) nd, (spif_memidx_t) k), want, 0);
+        spif_mbuff_del(o);
+        free(nd);
+    } else if (!strcmp(t[1], "sub")) {
+        char *f[4];
+        long long idx, cnt, i, ni, nc, refused = 0;
+        spif_mbuff_t sb;
+        spif_byteptr_t sp;
+        if (split_on(t[3], ':', f, 4) != 2) { printf("HARNESS-ERROR:bad-big-case"); return; }
+        idx = atoll(f[0]); cnt = atoll(f[1]);
+        ni = (idx < 0) ? A.len + idx : idx;
+        if (ni < 0 || ni >= A.len) refused = 1;
+        nc = (cnt <= 0) ? A.len - ni + cnt : cnt;
+        if (nc < 0) refused = 1;
+        if (nc > A.len - ni) nc = A.len - ni;
+        if (!refused && nc > 65536) { printf("HARNESS-ERROR:big-sub-piece-too-long"); return; }
+        sb = spif_mbuff_subbuff(a, (spif_memidx_t) idx, (spif_memidx_t) cnt);
+        sp = spif_mbuff_subbuff_to_ptr(a, (spif_memidx_t) idx, (spif_memidx_t) cnt);
+        big_expect("subbuff:isnull", t[2], t[3], -2, SPIF_MBUFF_ISNULL(sb) ? 1 : 0, refused, 0);
+        big_expect("subbuff_to_ptr:isnull", t[2], t[3], -2, sp ? 0 : 1, refused, 0);
+        if (!refused && !SPIF_MBUFF_ISNULL(sb)) {
+            big_expect("subbuff:len", t[2], t[3], -2, (long long) spif_mbuff_get_len(sb), nc, 0);
+            for (i = 0; i < nc && i < (long long) spif_mbuff_get_len(sb); i++) {
+                if (SPIF_MBUFF_BUFF(sb)[i] != big_byte_at(&A, ni + i)) { big_expect("subbuff:byte", t[2], t[3], i, SPIF_MBUFF_BUFF(sb)[i], big_byte_at(&A, ni + i), 0); break; }
+            }
+        }
+        if (!refused && sp) {
+            for (i = 0; i < nc; i++) {
+                if (sp[i] != big_byte_at(&A, ni + i)) { big_expect("subbuff_to_ptr:byte", t[2], t[3], i, sp[i], big_byte_at(&A, ni + i), 0); break; }
+            }
+        }
+        if (!SPIF_MBUFF_ISNULL(sb)) spif_mbuff_del(sb);
+        if (sp) free(sp);
+    } else if (!strcmp(t[1], "rev")) {
+        long long want = lv_big_haspoke(&A, A.len) ? A.len - 1 - A.off : -1;
+        unsigned char *q;
+        spif_bool_t r = spif_mbuff_reverse(a);
+        big_expect("reverse:ret", t[2], "-", -2, r ? 1 : 0, 1, 0);
+        big_expect("reverse:len", t[2], "-", -2, (long long) spif_mbuff_get_len(a), A.len, 0);
+        /* where the 0x01 bytes are afterwards (the harness's own scan, not the library's) */
+        q = (unsigned char *) memchr(A.base, A.poke, (size_t) A.len);
+        big_expect("reverse:position-of-the-0x01-byte", t[2], "-", -2, q ? (long long) (q - A.base) : -1, want, 0);
+        if (q) {
+            unsigned char *q2 = (q + 1 < A.base + A.len) ? (unsigned char *) memchr(q + 1, A.poke, (size_t) (A.base + A.len - q - 1)) : NULL;
+            big_expect("reverse:second-0x01-byte", t[2], "-", -2, q2 ? (long long) (q2 - A.base) : -1, -1, 0);
+        }
+    } else { printf("HARNESS-ERROR:bad-big-case"); return; }
+    big_release(a, &A);
+    if (!lv_bigbad) printf("BIG:ok");
+}
+
 static void run_case(int n, char **t)
 {
     spif_mbuff_t m;
@@ -301,6 +640,7 @@ static void run_case(int n, char **t)
     lv_glue_error = 0;
     lv_extra[0] = 0;
     if (n < 2) { printf("HARNESS-ERROR:bad-case"); return; }
+    if (!strcmp(t[0], "big")) { run_big(n, t); return; }
     if (!strcmp(t[0], "null")) {
         if (n != 3) { printf("HARNESS-ERROR:bad-case"); return; }
         m = (spif_mbuff_t) NULL;
